@@ -288,10 +288,9 @@ func (m *machine) step(s Step) (string, string) {
 					return base + ":alias-changed", fmt.Sprintf("after %s: alias partner %d has Bytes=%q, model %q", desc, i, b, o.m)
 				}
 			}
-			m.retireGroupExcept(e)
-			e.m = append([]byte(nil), e.m[:s.A]...)
-			e.group = m.groups
-			m.groups++
+			// ... and in the []byte model cutting a sequence short is a re-slice: it goes on sharing the kept prefix with
+			// its alias partners (a later Set through either is seen through the other)
+			e.m = e.m[:s.A:s.A]
 		}
 	case "len", "bytes":
 		// observation only; compareAll does the work
@@ -349,6 +348,10 @@ func run(t *testing.T, impl string) {
 func prop(impl string) func(rt *rapid.T, rec *vf.Rec) {
 	return func(rt *rapid.T, rec *vf.Rec) {
 		h := Header{Impl: impl, Data: rapid.SliceOfN(rapid.ByteRange('a', 'z'), 0, 64).Draw(rt, "data")}
+		if rapid.IntRange(0, 5).Draw(rt, "large") == 0 {
+			// beyond the sizes at which an implementation might start to manage its memory differently
+			h.Data = append(h.Data, bytes.Repeat([]byte("0123456789abcdef"), rapid.IntRange(16, 20).Draw(rt, "blocks"))...)
+		}
 		if h.Data == nil {
 			h.Data = []byte{}
 		}
